@@ -159,13 +159,19 @@ func (h *c18PeerHandler) ServeHTTP(w http.ResponseWriter, r *http.Request) {
 	buf := make([]byte, 700)
 	var body []byte
 	var rerr string
-	for {
+	for zeroReads := 0; ; {
 		n, err := r.Body.Read(buf)
 		body = append(body, buf[:n]...)
 		if err != nil {
 			if err != io.EOF {
 				rerr = err.Error()
 			}
+			break
+		}
+		if n > 0 {
+			zeroReads = 0
+		} else if zeroReads++; zeroReads > c18MaxZeroReads {
+			rerr = c18Livelock
 			break
 		}
 	}
@@ -716,6 +722,8 @@ func c18RunSrvCase(r *c18PeerRun) {
 		case seen != nil && seen.Panic != "":
 			tail, _ := c18ClassifyPanic("panic: " + seen.Panic)
 			vs = append(vs, r.viol("server|"+tail, "%s", seen.Panic))
+		case seen != nil && seen.ReadErr == c18Livelock:
+			vs = append(vs, r.viol("server|request-body-read-never-ends", "%s: content-length %d, DATA frames %v: after %d bytes Body.Read keeps returning (0, nil)", vr.name, vr.declared, vr.frames, len(seen.Body)))
 		case kind == "exact":
 			if seen == nil || seen.ReadErr != "" || len(seen.Body) != total {
 				vs = append(vs, r.viol("server|scripted|exact-content-length-rejected", "%s: seen %+v", vr.name, seen))
